@@ -34,6 +34,16 @@ Theorem C04_wrap_max1_refuted :
 Proof. vm_compute. reflexivity. Qed.
 Print Assumptions C04_wrap_max1_refuted.
 
+(* C04_wrap_no_replay measures "newest accepted number" by the detector's own position. In sequence spaces of three or four
+   numbers that position can differ from the newest number actually accepted: WithWrap(window >= 4, maximum 3) files a first
+   accepted 3 as "three behind" a tentative position 2 (the fold at -maximum/2 truncates towards zero), and after 0 has been
+   accepted, 3 passes Check again although 0 is only one ahead of it. The Spec oracle - which keeps the accepted numbers and
+   the newest of them itself - flags the third operation (known finding wrap-max-3, found by the thorough tier). *)
+Theorem C04_wrap_max3_refuted :
+  rd_oracle [1; 4; 3] [[3; 1]; [0; 1]; [3; 1]] (rd_run [1; 4; 3] [[3; 1]; [0; 1]; [3; 1]]) = [0; 0; 1].
+Proof. vm_compute. reflexivity. Qed.
+Print Assumptions C04_wrap_max3_refuted.
+
 (* No number above the maximum is ever accepted (both detectors, every history). *)
 Theorem C04_never_above_max_plain : forall c h s i seq inv o,
   nth_error h i = Some (seq, inv) -> nth_error (p_run c s h) i = Some o -> maxSeq c < seq ->
